@@ -335,20 +335,27 @@ def run(pid, tier):
             v.inconc("vacuity: the obligations of unperturbed module %s are unsatisfiable" % n)
         # replay: a SAT answer says "some real attribute differing from the recorded one would be accepted".
         # rustc decides: compile the twin(s) whose recorded attribute of that datum is wrong.
-        kind_map = {"size": ("sizeup", "sizedown"), "align": ("alignup", "aligndown"), "copy": ("uninit",)}
+        kind_of = {"sizeup": "size", "sizedown": "size", "alignup": "align", "aligndown": "align", "uninit": "copy"}
         done = 0
+        unreplayable = []
+        twin_hits = []
         for (base, field, kind), lst in sorted(cands.items()):
-            twin_names = [t for t in names if twins[t].get("twin") and twins[t].get("base") == base and
-                          re.match(r"^%s__%s_\d+_(%s)$" % (re.escape(base), re.escape(field), "|".join(kind_map[kind])), t)]
-            if not twin_names:
-                v.inconc("C11 query SAT for %s.%s (%s) but no twin module exists to replay it with rustc" % (base, field, kind))
-                continue
-            if done >= (10 if tier == "quick" else 60):
-                continue
-            tw = twin_names[0]
-            # a twin that keeps the copy-able flag on a Copy type is not wrong: skip those
-            if kind == "copy" and twins[tw].get("real_uninit_ok"):
-                continue
+            for (mod, q) in lst:
+                ex = twins[mod]
+                if ex.get("twin"):
+                    # SAT inside a twin, for the very datum and attribute that twin records wrongly: the emitted
+                    # obligations do not pin it -> rustc is asked
+                    pert = kind_of.get(ex.get("perturbation"), "")
+                    if pert == kind and q["datum"] == ex.get("datum"):
+                        if kind == "copy" and ex.get("real_uninit_ok"):
+                            continue
+                        twin_hits.append((mod, base, field, kind))
+                else:
+                    if (base, field, kind) not in unreplayable and any(twins[t].get("twin") and twins[t].get("base") == base for t in names):
+                        unreplayable.append((base, field, kind))
+        for (tw, base, field, kind) in twin_hits:
+            if done >= (12 if tier == "quick" else 80):
+                break
             accepted, diag = compile_module(tw, os.path.join(OUT, tw + ".rs"))
             validated += 1
             done += 1
@@ -365,7 +372,13 @@ def run(pid, tier):
                 elif role not in reported:
                     v.violation(path, "C11: " + text)
                 reported.add(role)
-            # rejected by rustc: the SAT model was spurious w.r.t. the real compiler (e.g. another obligation catches it)
+        if unreplayable and not v.violations:
+            hit = {(b, f, k) for (_, b, f, k) in twin_hits}
+            rest = [u for u in unreplayable if u not in hit]
+            if rest:
+                v.inconc("C11: for %d (definition, field, attribute) triples — e.g. %s — the unperturbed module's obligations would also be satisfied by a real "
+                         "attribute different from the recorded one; no twin exhibits it with the real types of this host, so it cannot be replayed with rustc" %
+                         (len(rest), rest[:3]))
         # the twin whose datum is perturbed must be rejected outright (direct query with the real attributes)
         nq += 0
     else:
@@ -406,17 +419,32 @@ def run(pid, tier):
                         v.known_finding(kf["text"])
                     else:
                         v.violation(path, "C14: " + text)
-        if if_sat or True:
-            # converse: a definition whose field types are all Send + Sync must give Send + Sync records
-            ppath = os.path.join(OUT, "pod3.rs")
-            acc, diag = compile_module("pod3", ppath, probe_tpl % "is_send::<m::Record0>(); is_sync::<m::Record0>(); is_send::<m::Record2>(); is_sync::<m::Record2>();")
+        # converse ("it can whenever all of them can"): for every module and every variant whose field types
+        # are all known to be Send + Sync, rustc must accept is_send / is_sync of the record type
+        GOOD = {"u8", "u16", "u32", "u64", "[u8;3]", "kgen_types::P12", "kgen_types::P24", "kgen_types::Zst", "kgen_types::Over16", "kgen_types::Tracked",
+                "kgen_types::TrackedBox", "kgen_types::ZstDrop", "[u64;0]", "Option<u32>", "std::sync::Mutex<std::cell::Cell<u32>>", "fn(*constu8,usize)->usize"}
+        probed = 0
+        for n in names:
+            facts = json.load(open(os.path.join(OUT, n + ".json")))
+            if facts["extra"].get("twin"):
+                continue
+            by_id = {d["id"]: d for d in facts["data"]}
+            lines = []
+            for vi, ids in enumerate(facts["variants"]):
+                if all(norm(by_id[i]["type"]) in GOOD for i in ids):
+                    lines.append("is_send::<m::Record%d>(); is_sync::<m::Record%d>(); is_send::<m::CappedRecord%d<200>>(); is_sync::<m::CappedRecord%d<200>>();" % (vi, vi, vi, vi))
+            if not lines:
+                continue
+            acc, diag = compile_module(n, os.path.join(OUT, n + ".rs"), probe_tpl % " ".join(lines))
             validated += 1
+            probed += 1
             if not acc:
-                path = os.path.join(rdir, "pod3-converse.rs")
-                sh(["cp", ppath, path])
-                v.violation(path, "C14: records whose field types are all Send + Sync are not Send + Sync themselves: " + diag)
-            elif if_sat:
-                v.note("note: the converse query is satisfiable in the model (%d cases, unknown type leaves) but rustc accepts the probe" % len(if_sat))
+                path = os.path.join(rdir, "%s-converse.rs" % n)
+                sh(["cp", os.path.join(OUT, n + ".rs"), path])
+                v.violation(path, "C14: a record of definition `%s` whose field types are all Send + Sync is not Send + Sync itself: %s" % (n, diag))
+                break
+        if if_sat and not v.violations:
+            v.note("note: the converse query is satisfiable in the model (%d cases, unknown type leaves) but rustc accepts all %d probes" % (len(if_sat), probed))
     coverage = {
         "states": max(nq, 1),
         "transitions": max(nq, 1),
